@@ -165,6 +165,14 @@ def systematic_inputs(ents, rng, auto, nperms, extra_defs=()):
                 for near in (coregen.transposed(d["tag"]), coregen.camel(d["tag"]), d["tag"].lower(), d["tag"].upper(), d["tag"] + "s"):
                     if near != d["tag"]:
                         add(eid, coregen.vmap(coregen.dedup(base + [(near, coregen.vstr(coregen.G.unraw(v0["ident"])))])), "json")
+                # every variant under its effective name with its members and one member it does not know (denied or ignored)
+                for v in d["variants"]:
+                    i = coregen.G.unraw(v["ident"])
+                    vn = v["rename"] if v["rename"] is not None else (coregen.camel(i) if d.get("rename_all") == "camelCase" else (i.lower() if d.get("rename_all") == "lowercase" else i))
+                    ms = [(d["tag"], coregen.vstr(vn))] + [(coregen.effkey(d, f, v), fval(f)) for f in (v["fields"] or [])]
+                    for src in ("json", "ov"):
+                        add(eid, coregen.vmap(coregen.dedup(ms + [("zz", coregen.vint(1))])), src)
+                        add(eid, coregen.vmap(coregen.dedup([("zz", coregen.vseq([]))] + ms + [("yy", coregen.vnull())])), src)
                 for v in d["variants"]:
                     for tn in vforms(v):
                         for fm in forms[:4]:
